@@ -929,6 +929,7 @@ pub fn builtin_catalog() -> Catalog {
             add!(HashSet<$e>, "HashSet");
             add!([$e; 2], "Array2");
             add!([$e; 3], "Array3");
+            add!([$e; 70], "Array70");
             add!(Streamed<$e>, "Streamed");
             add!(SliceOf<$e>, "SliceOf");
             add!(RcSlice<$e>, "RcSlice");
